@@ -300,6 +300,9 @@ fn eval_hybrid_quantifier(
     variable: &str,
     child_evaluated: &GraphColoredVertices,
 ) -> GraphColoredVertices {
+    // make sure the child's result respects the (possibly restricted) validity domain of the variable,
+    // since some sub-results (propositions, wild-cards, cached or pattern results) do not carry it
+    let child_evaluated = &child_evaluated.intersect(graph_to_propagate.unit_colored_vertices());
     match operator {
         HybridOp::Bind => eval_bind(graph, child_evaluated, variable),
         HybridOp::Exists => eval_exists(graph, child_evaluated, variable),
